@@ -979,6 +979,56 @@ func partRaceRun(sysName string, dA, dB time.Duration, seed int64) ([]cEvent, er
 	return cr.sorted(), nil
 }
 
+// recreateRun: a slow uploader's PUT into an empty bucket is overlapped by a complete DeleteBucket and a complete
+// CreateBucket of the same name (three overlapping requests); then the body arrives.
+func recreateRun(sysName string, versioned bool, seed int64) ([]cEvent, error) {
+	cr, reset, err := newConcRun(sysName, versioned, seed, true)
+	if err != nil {
+		return nil, err
+	}
+	defer cr.sys.Close()
+	reset.Scenario = "slowput:delete-and-recreate-bucket"
+	cr.record(reset)
+	r := rand.New(rand.NewSource(seed))
+	kb := keyBytes("k1")
+	gate := make(chan struct{})
+	atGate := make(chan struct{})
+	doneA := make(chan struct{})
+	body := cr.atom("w1_0", r)
+	gb := &gatedBody{data: body, gate: gate, atGate: atGate}
+	go func() {
+		defer close(doneA)
+		cr.doOp("1", Op{"op": "PutObject", "b": concBucket, "k": kb, "body": []interface{}{"w1_0"}, "meta": []interface{}{}, "vid": ""}, body, gb, nil)
+	}()
+	select {
+	case <-atGate:
+	case <-doneA:
+	case <-time.After(10 * time.Second):
+		return nil, fmt.Errorf("scenario recreate: the upload neither reached its gate nor returned")
+	}
+	doneB := make(chan struct{})
+	go func() {
+		defer close(doneB)
+		cr.doOp("2", Op{"op": "DeleteBucket", "b": concBucket}, nil, nil, nil)
+		cr.doOp("2", Op{"op": "CreateBucket", "b": concBucket}, nil, nil, nil)
+	}()
+	select {
+	case <-doneB:
+	case <-time.After(300 * time.Millisecond):
+	}
+	close(gate)
+	for _, ch := range []chan struct{}{doneA, doneB} {
+		select {
+		case <-ch:
+		case <-time.After(20 * time.Second):
+			return nil, fmt.Errorf("scenario recreate: a request did not return after the gate was opened (deadlock?)")
+		}
+	}
+	cr.doOp("0", Op{"op": "GetObject", "b": concBucket, "k": kb}, nil, nil, nil)
+	cr.record(cr.finalSnapshot([]string{"k1"}))
+	return cr.sorted(), nil
+}
+
 // gateBackend parks the first PutObject call after it has been armed: the
 // multipart completion is then suspended inside the backend write, holding
 // whatever locks the uploader holds at that point.
@@ -1094,7 +1144,13 @@ func bigMultipartRun(sysName string, nparts int, seed int64) ([]cEvent, error) {
 	cr.doOp("1", init, nil, nil, nil)
 	uid := init.S("uid")
 	var list []interface{}
+	nums := []int{}
 	for n := 1; n <= nparts; n++ {
+		nums = append(nums, n)
+	}
+	// part numbers at powers of two and at the upper limit, each the highest of the upload when it arrives
+	nums = append(nums, 2047, 2048, 4095, 4096, 4097, 8191, 8192, 8193, 9999, 10000)
+	for _, n := range nums {
 		name := fmt.Sprintf("p%d", n)
 		body := cr.atom(name, r)
 		cr.doOp("1", Op{"op": "UploadPart", "b": concBucket, "k": kb, "uid": uid, "n": float64(n), "body": []interface{}{name}}, body, nil, nil)
@@ -1350,6 +1406,16 @@ func cmdConc(args []string) {
 						}
 						write(evs, sysName)
 					}
+				}
+			}
+			if !strings.HasPrefix(sysName, "single") {
+				evs, err := withDeadline("recreateRun on "+sysName, func() ([]cEvent, error) { return recreateRun(sysName, false, *seed) })
+				if err != nil {
+					if err != errSkippedAfterHangs {
+						problems = append(problems, sysName+": "+err.Error())
+					}
+				} else {
+					write(evs, sysName)
 				}
 			}
 			for _, other := range []string{"uploadpart", "uploadpart-other", "complete", "get", "initiate"} {
